@@ -21,6 +21,12 @@ HARD = [
     (10, [(0, 2), (0, 6), (0, 7), (0, 8), (1, 6), (1, 7), (1, 8), (2, 4), (2, 5), (2, 7), (3, 4), (3, 5), (3, 6), (3, 8), (3, 9), (4, 5), (4, 7), (5, 9), (6, 9), (7, 9), (8, 9)]),
     (10, [(0, 2), (0, 3), (0, 4), (0, 5), (0, 7), (0, 8), (0, 9), (1, 5), (1, 7), (1, 8), (2, 8), (2, 9), (3, 4), (3, 5), (3, 6), (4, 5), (4, 9), (5, 6), (6, 7), (6, 8), (6, 9), (7, 9)]),
     (10, [(0, 5), (0, 6), (0, 7), (1, 2), (1, 4), (1, 7), (1, 9), (2, 3), (2, 9), (3, 4), (3, 6), (3, 8), (4, 5), (4, 6), (4, 9), (5, 8), (5, 9), (6, 8), (7, 9), (8, 9)]),
+    # found by tools/find_hard_graphs.py (32000 random graphs on 8..11 vertices, exact treewidth by subset DP; quickbb and acb of the
+    # current tree were optimal on all of them): graphs on which flawed variants of quickbb's reduction / bound rules (almost-simplicial
+    # test replaced by a fill-in count, "simplicial" widened to almost simplicial, lower bound off by one) lose the optimum
+    (9, [(0, 1), (0, 2), (0, 3), (0, 6), (0, 8), (1, 3), (1, 4), (1, 5), (2, 5), (2, 7), (3, 4), (3, 6), (3, 7), (4, 5), (4, 6), (4, 7), (5, 6), (6, 7)]),
+    (9, [(0, 1), (0, 2), (0, 5), (0, 7), (0, 8), (1, 2), (1, 3), (1, 4), (2, 4), (2, 5), (2, 6), (2, 7), (2, 8), (3, 5), (3, 7), (3, 8), (4, 6), (4, 7), (5, 6), (6, 8)]),
+    (9, [(0, 2), (0, 7), (0, 8), (1, 2), (1, 3), (1, 4), (1, 5), (1, 6), (1, 8), (2, 3), (2, 4), (2, 5), (3, 4), (3, 6), (3, 7), (3, 8), (4, 5), (4, 6), (4, 8), (5, 6), (5, 7), (6, 7), (6, 8)]),
 ]
 
 
